@@ -8,6 +8,7 @@
   structural-recursion budget never decides an outcome.
 -/
 import GoSecs.Lemmas.Secs2Grammar
+import GoSecs.Lemmas.Secs2Gen
 import GoSecs.Gen.Consts
 
 namespace GoSecs.Props.C02
@@ -216,6 +217,38 @@ theorem alloc_bound (bs : Bytes) : allocDecode bs ≤ 521 * bs.length := allocDe
 theorem list_alloc_guarded (n : Nat) (r : Bytes) (h : lenLt r (n * 2) = false) :
     16 * n ≤ 8 * r.length := by
   have := (lenLt_false_iff _ _).1 h; omega
+
+/-- The header the decoder must be able to read back is the header the encoder writes: `appendHeaderBytesFC`
+    (regenerated from secs2/item.go) appends the model's `header fc n` — the item header of `Parses` / `decode` —
+    for every format code and every length within the cap. -/
+theorem appendHeaderBytesFC_gen (dst : Bytes) (fc n : Nat) :
+    Gen.secs2_appendHeaderBytesFC dst (fc : Int) (n : Int) =
+      some (if n > maxByteSize then (dst, some "size limit exceeded") else (dst ++ header fc n, none)) :=
+  Secs2.appendHeaderBytesFC_gen dst fc n
+
+/-- **The header parse of `decodeItem`, regenerated from secs2/decode.go** (its statements from the entry up to
+    `switch formatCode`): format byte → format code `>> 2` and length-byte count `& 3`, the zero-count and
+    short-input rejections (with the position the Go code reports), the 1..3 length bytes combined big-endian with
+    shifts and ORs — is the model's `decHeader` on `owned[pos:]`, for every buffer and every position; and it
+    never indexes out of range. -/
+theorem decodeItemHeader_gen (owned : Bytes) (pos : Nat) :
+    Gen.secs2_decodeItem_header owned (pos : Int) = some (headerOut pos (decHeader (owned.drop pos))) :=
+  Secs2.decodeItemHeader_gen owned pos
+
+/-- …and `decHeader` is the header the model decoder `dec` (the subject of every theorem above) parses. -/
+theorem dec_via_decHeader (fuel depth : Nat) (bs : Bytes) :
+    dec (fuel + 1) depth bs =
+      (match decHeader bs with
+       | .error e => .error e
+       | .ok (fc, _, n, r2) =>
+         if fc = fcList then
+           if depth + 1 > maxListDepth then .error .depth
+           else if lenLt r2 (n * 2) then .error .count
+           else match decL fuel (depth + 1) n r2 with
+             | .error e => .error e
+             | .ok (cs, r3) => .ok (.list cs, r3)
+         else decLeaf fc n r2) :=
+  Secs2.dec_via_decHeader fuel depth bs
 
 theorem consts_gen :
     Gen.secs2_MaxListDepth = (maxListDepth : Int) ∧ Gen.secs2_MaxByteSize = (maxByteSize : Int) := by
